@@ -1,7 +1,7 @@
 import MaltModel.Cfg.AstToCfg
 import MaltModel.Cfg.Check
 import MaltModel.Proofs.C05Check
-import MaltModel.Proofs.C05Paths2
+import MaltModel.Proofs.C05Paths3C
 import MaltModel.Proofs.C05Wf
 import MaltModel.Proofs.C05Owners
 /-!
@@ -109,33 +109,52 @@ theorem C05_owners_lexical (i : Nat) (name : String) (args : Expr) (body : List 
 
 /-! ## Every walk is a path of the model's graph
 
-Full statement (kept as the goal; FALSE of the pinned code without the last hypothesis, see the counterexample below):
+Statement (`C05_paths` below; FALSE of the pinned code without the last hypothesis, see the counterexample at the end):
 
-  theorem C05_paths (fn g) : fnSupported fn → fnDistinctKeys fn → fnNoJumpInHandlerOfTryWithFinally fn →
+  fnSupported fn → fnParsedShape fn → fnDistinctKeys3 fn → fnNoJumpInHandlerOfTryWithFinally fn →
       rootGraph fn = some g → ∀ fuel ω, IsPath g (walkFn fuel fn ω)
 
-Proved so far by structural induction over statements (`Proofs/C05Frame.lean`: Lemma A = frame conditions of the builder
-for ALL statements including try/except/finally; `Proofs/C05Paths2.lean`: Lemma B = "every required pair of the flow
-summary is an edge, every node control can be at is a leaf, every pending jump is registered in the section it targets,
-every pending raise is registered with every enclosing handler" for the fragment below; Lemma C = the finished root
-graph passes `pathCheck`), composed with `walk_sound` (all fuels, all oracles):
+Proved by structural induction over statements, for the whole modelled language including `finally`:
 
-* steps 1 and 2 (this theorem): every function without a `finally` block — if/while/for (+else)/with/break/continue/
-  return/raise/try-except-else (handlers entered from the raise nodes of the body, handler fall-through, else blocks)/
-  nested def/class/lambda-bearing statements, arbitrarily nested, dead code included;
-* step 3 (`finally`: pending jumps threaded through guard sub-graphs, and the known violation above) is NOT proved for the
-  model by induction; for those programs the same conclusion is established per graph by the verified checker
-  `C05_paths_checker` run on the implementation's real graph (equal to the model's) on every run.
+* `Proofs/C05Frame.lean`, `Proofs/C05FrameX.lean`: Lemma A = frame conditions of the builder for all statements (which
+  dictionary keys, jump lists, guard lists, `finally` sub-graph records and set objects a visit may touch);
+* `Proofs/C05Paths3.lean` … `C05Paths3C.lean`: Lemma B = the invariant relating the builder to the flow summary of the code
+  visited so far: every node control can be at is a leaf (or, at the start of a `finally` block reached by a pending jump,
+  a node that flows into the block's first node); every required pair is an edge or a *pending pair* of a registered jump
+  (it is added by `_connect_jump_to_finally_sections` when the section the jump targets is left: the jump into the first
+  guard, and the ends of one guard into the beginning of the next); every pending `break`/`continue`/`return` outcome is a
+  registered jump at some stage of its guard chain with exactly the enclosing `finally` scopes left to pass; every pending
+  raise is an error node registered with every enclosing handler.  The single visit of a `finally` block is matched
+  against the four runs of the block in the flow summary (entered normally, by `break`, by `continue`, by `return`);
+  `Proofs/C05Paths3Exit.lean` shows that `exit_section` / `exit_loop_section` turn every pending pair of their jumps into
+  an edge and leave the others alone (the jump lists are pairwise disjoint);
+* Lemma C (`pathCheck_build3`) = the finished root graph passes `pathCheck`; composed with `walk_sound` (all fuels, all
+  oracles).
 
-`fnDistinctKeys`: the dictionaries of `GraphBuilder` are keyed by AST node objects; in the model the keys are the
-serialiser's preorder ids.  Keys of one dictionary family must be pairwise distinct; they are for every serialised
-program except those on which the real builder itself fails an `assert` (a try-else block that starts with an `if`:
-the try keys the else block by its first statement, the `if` keys its own section by the same node).  The driver
-evaluates the predicate for every program. -/
+The hypotheses, precisely (all decidable, evaluated by the driver for every program of every run):
+
+* `fnFrag3 fn` (`C05_paths_partial`): no `async def/for/with`, no `except … as name`, no statement outside the modelled
+  syntax, `for` loops without the extra loop test annotation, `break`/`continue` only inside a loop of the same function;
+  every `with` has an item, every `try` body and every `finally` block start with a node-creating statement; and for
+  every `try` that has a `finally` block: no handler of that try contains a `return`, or a `break`/`continue` whose loop
+  is outside the handler (`escapesL false handlers = false`) — the class of the known finding.
+  `fnFrag3_of`: `fnSupported fn ∧ fnParsedShape fn ∧ fnNoJumpInHandlerOfTryWithFinally fn → fnFrag3 fn`, where
+  `fnParsedShape` collects the conditions that hold of every parsed Python program (no extra loop test, a `with` has an
+  item, try bodies / `finally` blocks start with a node-creating statement) — so `C05_paths` covers every function of
+  the walk's language outside the class of the known finding.
+* `fnDistinctKeys3 fn`: the dictionaries of `GraphBuilder` are keyed by AST node objects and the node index by CFG nodes;
+  in the model the keys are the serialiser's preorder ids.  Ids of one family (section keys, conditional-section keys,
+  CFG nodes) must be pairwise distinct; they are for every serialised program except those on which the real builder
+  itself fails an `assert` (a try-else block that starts with an `if`: the try keys the else block by its first
+  statement, the `if` keys its own section by the same node).
+* `rootGraph fn = some g`: the model's `cfg.build` does not raise.
+
+The verified-checker route (`C05_paths_checker` on the implementation's real graph, equal to the model's) stays in place
+for every program, inside or outside these hypotheses. -/
 
 theorem C05_paths_partial (i : Nat) (name : String) (args : Expr) (body : List Stmt) (decs rets : List Expr) (g : Graph)
-    (hfrag : fnFrag2 (.functionDef i name args body decs rets false) = true)
-    (hkeys : fnDistinctKeys (.functionDef i name args body decs rets false) = true)
+    (hfrag : fnFrag3 (.functionDef i name args body decs rets false) = true)
+    (hkeys : fnDistinctKeys3 (.functionDef i name args body decs rets false) = true)
     (hg : rootGraph (.functionDef i name args body decs rets false) = some g) (fuel : Nat) (ω : Oracle) :
     IsPath g (walkFn fuel (.functionDef i name args body decs rets false) ω) := by
   have hgb : g = (rootBuilder (.functionDef i name args body decs rets false)).1.build := by
@@ -144,7 +163,18 @@ theorem C05_paths_partial (i : Nat) (name : String) (args : Expr) (body : List S
     · cases hg
     · exact (Option.some.inj hg).symm
   subst hgb
-  exact pathCheck_sound i name args body decs rets false _ (pathCheck_build i name args body decs rets hfrag hkeys) fuel ω
+  exact pathCheck_sound i name args body decs rets false _ (pathCheck_build3 i name args body decs rets hfrag hkeys) fuel ω
+
+/-- Every walk of a function of the modelled language, outside the class of the known finding, is a path of the model's
+graph. -/
+theorem C05_paths (i : Nat) (name : String) (args : Expr) (body : List Stmt) (decs rets : List Expr) (g : Graph)
+    (hsup : fnSupported (.functionDef i name args body decs rets false) = true)
+    (hshape : fnParsedShape (.functionDef i name args body decs rets false) = true)
+    (hkeys : fnDistinctKeys3 (.functionDef i name args body decs rets false) = true)
+    (hclass : fnNoJumpInHandlerOfTryWithFinally (.functionDef i name args body decs rets false) = true)
+    (hg : rootGraph (.functionDef i name args body decs rets false) = some g) (fuel : Nat) (ω : Oracle) :
+    IsPath g (walkFn fuel (.functionDef i name args body decs rets false) ω) :=
+  C05_paths_partial i name args body decs rets g (fnFrag3_of i name args body decs rets false hsup hshape hclass) hkeys hg fuel ω
 
 /-- `def f(a): while a: (if a: break; else: continue); x = a   else: return a` then `y = lambda: a` — nested jumps,
 loop-else, dead code, a lambda: the hypotheses of `C05_paths_partial` hold and the graph exists. -/
@@ -157,7 +187,7 @@ def exFn : Stmt :=
      .assign 15 [.name 16 "y" .store] (.lambda 17 (.arguments 18 [] [] [] [] [] [] []) (.name 19 "a" .load))]
     [] [] false
 
-example : fnFrag2 exFn = true ∧ fnDistinctKeys exFn = true ∧ (rootGraph exFn).isSome = true := by decide
+example : fnFrag3 exFn = true ∧ fnDistinctKeys3 exFn = true ∧ (rootGraph exFn).isSome = true := by decide
 /-- … and `C05_wellformed` applies to both of its graphs (the function's and the lambda's). -/
 example : (build exFn).err = none ∧ (build exFn).cfgs.length = 2 := by decide
 example : walkFn 20 exFn [1, 0, 1, 1] = ([2, 5, 7, 9, 5, 7, 8, 17, 15], .normal, []) := by decide
@@ -175,11 +205,60 @@ def exFn2 : Stmt :=
       [] [] false]
     [] [] false
 
-example : fnFrag2 exFn2 = true ∧ fnDistinctKeys exFn2 = true ∧ (rootGraph exFn2).isSome = true := by decide
+example : fnFrag3 exFn2 = true ∧ fnDistinctKeys3 exFn2 = true ∧ (rootGraph exFn2).isSome = true := by decide
 /-- `C05_owners_lexical` applies to it: the `break` (#15) lies in the for (#4), the try (#7) and the first handler (#13). -/
 example : fnSupported exFn2 = true ∧ fnDistinctOwnerIds exFn2 = true ∧ (fnOwnSpec exFn2).lookup 15 = some [4, 7, 13] := by decide
 /-- first iteration: the raise is caught by the second handler, falls through; second iteration: caught by the first, `break` -/
 example : walkFn 30 exFn2 [1, 1, 1, 1, 1, 0] = ([2, 6, 9, 10, 18, 6, 9, 10, 15], .normal, []) := by decide
+
+/-- A loop with `continue` inside try/finally inside try/finally, a `break` that passes one `finally` block and a `return`
+that passes two, with a handler and an `else` block:
+
+    def f(a):
+        while a:
+            try:
+                try:
+                    if a: continue
+                    if a: break
+                    if a: return a
+                    x = a
+                except E: w = a
+                else: v = a
+                finally: y = a
+            finally: z = a
+        return a
+-/
+def exFn3 : Stmt :=
+  .functionDef 1 "f" (.arguments 2 [] [.arg 3 "a" []] [] [] [] [] [])
+    [.while_ 4 (.name 5 "a" .load)
+      [.try_ 6
+        [.try_ 7
+          [.if_ 8 (.name 9 "a" .load) [.continue_ 10] [],
+           .if_ 11 (.name 12 "a" .load) [.break_ 13] [],
+           .if_ 14 (.name 15 "a" .load) [.ret 16 [.name 17 "a" .load]] [],
+           .assign 18 [.name 19 "x" .store] (.name 20 "a" .load)]
+          [.handler 21 [.name 22 "E" .load] [] [.assign 23 [.name 24 "w" .store] (.name 25 "a" .load)]]
+          [.assign 26 [.name 27 "v" .store] (.name 28 "a" .load)]
+          [.assign 29 [.name 30 "y" .store] (.name 31 "a" .load)]]
+        [] []
+        [.assign 32 [.name 33 "z" .store] (.name 34 "a" .load)]]
+      [],
+     .ret 35 [.name 36 "a" .load]]
+    [] [] false
+
+/-- The hypotheses of `C05_paths` hold of it (so the theorem is not vacuous on nested `finally`) … -/
+example : fnSupported exFn3 = true ∧ fnParsedShape exFn3 = true ∧ fnNoJumpInHandlerOfTryWithFinally exFn3 = true ∧
+    fnFrag3 exFn3 = true := by decide
+set_option maxRecDepth 8000 in
+example : fnDistinctKeys3 exFn3 = true := by decide
+set_option maxRecDepth 8000 in
+example : (rootGraph exFn3).isSome = true := by decide
+/-- … `continue` through both `finally` blocks back to the loop test, then the loop ends -/
+example : walkFn 40 exFn3 [1, 1, 0] = ([2, 5, 9, 10, 29, 32, 5, 35], .ret, []) := by decide
+/-- … `break` through both `finally` blocks to the statement after the loop -/
+example : walkFn 40 exFn3 [1, 0, 1] = ([2, 5, 9, 12, 13, 29, 32, 35], .ret, []) := by decide
+/-- … `return` through both `finally` blocks -/
+example : walkFn 40 exFn3 [1, 0, 0, 1] = ([2, 5, 9, 12, 15, 16, 29, 32], .ret, []) := by decide
 
 /-! ## The known violation of the full statement on the pinned code
 
